@@ -242,7 +242,9 @@ def instances():
         nn = 4 if on == "extract_if" else 8
         T("c03_%s_n%d" % (on, nn), "c03::ledger_op::<%d>(%d)" % (nn, op), nn, be=G8, props=("C03", "C02"))
     T("c03_drop_n16", "c03::ledger_op::<16>(0)", 16, be=G8, props=("C03",))
-    T("c03_drain_n16", "c03::ledger_op::<16>(5)", 16, be=G8, props=("C03",), tier="thorough")
+    T("c03_drain_n16", "c03::ledger_op::<16>(5)", 16, be=G8, props=("C03", "C10", "C09"), timeout=2400, mem_gb=20, share_quick=("C10", "C09"))
+    T("c03_map_drain_fold_n4", "c03::map_drain_fold::<4>(0)", 4, be=G8, props=("C03", "C10", "C09"), share_quick=("C10", "C09"), timeout=1800, mem_gb=20)
+    T("c03_map_drain_fold_n8", "c03::map_drain_fold::<8>(1)", 8, be=G8, props=("C03", "C10", "C09"), tier="thorough", timeout=10800, mem_gb=40)
     T("c03_into_iter_n8s", "c03::ledger_op::<8>(6)", 8, be=S16, props=("C03",))
     T("c03_grow_n8", "c03::ledger_resize::<8, >(2, 0, 0, 6)".replace("<8, >", "<8>"), 8, n2=16, items=2, be=G8, props=("C03", "C08"))
     T("c03_shrink_n8", "c03::ledger_resize::<8>(2, 0, 1, 0)", 8, n2=4, items=2, be=G8, props=("C03", "C08"))
@@ -343,6 +345,7 @@ def instances():
     # ------------------------------------------------------------------ C11 clone / clone_from / ==
     T("c11_clone_n8", "c11::clone_step::<8>(true)", 8, props=("C11", "C03"), be_quick=G8)
     T("c11_clone_n8_src_mut", "c11::clone_step::<8>(false)", 8, be=G8, props=("C11", "C03"))
+    T("c11_clone_n16_counts", "c11::clone_counts::<16>(3, 6)", 16, items=3, be=G8, props=("C11", "C08"), timeout=1800)
     T("c11_clone_n16", "c11::clone_step::<16>(true)", 16, be=G8, props=("C11",), timeout=10800, tier="thorough", mem_gb=30)
     for (nt, ns) in ((8, 8), (8, 4), (4, 8), (8, 1), (16, 8)):
         T("c11_clone_from_%d_%d" % (nt, ns), "c11::clone_from_step::<%d, %d>()" % (nt, ns), max(nt, ns), be=G8, props=("C11", "C03"),
@@ -423,7 +426,7 @@ def instances():
     # tombstone-aware insert, in-place rehash, growth, free-slot accounting of replace_bucket_with, the rehash
     # panic guard). A change to one of them breaks most properties at once, whichever one it is filed under.
     CORE = ["c06_remove_n16", "c06_insert_n16", "c06_rehash_ct8_b1", "c14_map_occ_replace_entry_with_n8",
-            "c06_insert_n4_grow", "c04_rehash_hook_drop_n4"]
+            "c06_insert_n4_grow", "c04_rehash_hook_drop_n4", "c17_layout_all", "c17_probe_step_all"]
     for prop in ("C01", "C02", "C03", "C05", "C07", "C09", "C10", "C11", "C14", "C15"):
         SHARE.setdefault(prop, [])
         for n in CORE:
